@@ -174,6 +174,7 @@ def killed(writes, footprint):
 # Convenience layer used by the rule files
 from .pat import match_lit, match
 from .an import fields_read, calls_in
+from .prog import killed_rooted
 
 
 def footprint(prog, e):
@@ -212,14 +213,19 @@ def require(cx, site, key, text, accept, kill=True, detail=None):
     if ok and kill:
         fp = set()
         for l, a in accepted.items():
-            if a:
-                fp |= lit_footprint(prog, l)
+            if a and l[0] in ("is", "in", "notin"):
+                fp |= prog.expr_footprint(l[1], site.fn)
         if fp:
+            cache = {}
+
             def kb(bi, upto):
-                return killed(prog.block_writes(site.fn, bi, upto), fp)
+                k = (bi, upto)
+                if k not in cache:
+                    cache[k] = killed_rooted(prog.block_effects(site.fn, bi, upto), fp)
+                return cache[k]
             ok, wit = g.guarded(site.at, ok_edge, kb)
             if not ok:
-                text = text + " [guard value may be overwritten before the site]"
+                text = text + " [the guard's inputs may be overwritten between the guard and the site]"
     d = dict(detail or {})
     d["guard_literals_accepted"] = sorted(show_lit(l) for l, a in accepted.items() if a)[:6]
     if not ok:
@@ -227,3 +233,63 @@ def require(cx, site, key, text, accept, kill=True, detail=None):
         d["dominating_guards"] = sorted(show_lit(l) for l in cx.guard_lits(site))[:12]
     cx.check(ok, key, text, site, **d)
     return ok
+
+
+def require_all(cx, site, key, text, clauses, kill=True, detail=None):
+    """Conjunction of must-pass clauses (each an accept function); one instance, all must hold."""
+    oks = []
+    d = dict(detail or {})
+    g = cx.pg(site.fn)
+    prog = cx.prog
+    failed = []
+    acc_all = []
+    for ci, (cname, accept) in enumerate(clauses):
+        accepted = {}
+
+        def ok_edge(lits, accepted=accepted, accept=accept):
+            r = False
+            for l in lits:
+                a = accepted.get(l)
+                if a is None:
+                    a = bool(accept(l))
+                    accepted[l] = a
+                if a:
+                    r = True
+            return r
+        ok, wit = g.guarded(site.at, ok_edge)
+        if ok and kill:
+            fp = set()
+            for l, a in accepted.items():
+                if a and l[0] in ("is", "in", "notin"):
+                    fp |= prog.expr_footprint(l[1], site.fn)
+            if fp:
+                cache = {}
+
+                def kb(bi, upto, cache=cache, fp=fp):
+                    k = (bi, upto)
+                    if k not in cache:
+                        cache[k] = killed_rooted(prog.block_effects(site.fn, bi, upto), fp)
+                    return cache[k]
+                ok, wit = g.guarded(site.at, ok_edge, kb)
+                if not ok:
+                    cname = cname + " [guard inputs may be overwritten before the site]"
+        acc_all += [show_lit(l) for l, a in accepted.items() if a]
+        if not ok:
+            failed.append((cname, wit))
+    d["guard_literals_accepted"] = sorted(set(acc_all))[:10]
+    if failed:
+        d["failed_clauses"] = [c for c, _ in failed]
+        d["unguarded_path_blocks"] = failed[0][1][:40] if failed[0][1] else None
+        d["dominating_guards"] = sorted(show_lit(l) for l in cx.guard_lits(site))[:12]
+    cx.check(not failed, key, text, site, **d)
+    return not failed
+
+
+def callers_of(cx, fn):
+    from .an import strip_generics
+    return [s for s in cx.prog.calls_in.get(strip_generics(fn.key), []) if s.kind == "call"]
+
+
+def call_args(cx, s):
+    a = cx.prog.A(s.fn)
+    return [a.expr_operand(o, s.at) for o in s.data["term"]["args"]]
